@@ -109,6 +109,16 @@ TCmd == /\ l <= Len(Trace) /\ Ev.ev = "cmd"
                     /\ dev' = [n \in Deviations |-> IF n = "LruEvictsNewest" /\ ~strictOK THEN dev[n] + 1 ELSE dev[n]]
               \* GoneCompletely
               /\ \A x \in Gone(e) : ~(x \in DOMAIN after) /\ ~InList(e.vol, x) /\ ~InList(e.lru, x) /\ ~InList(e.lfu, x)
+              \* "when": once a storing command has completed (and the cache updates it started have run), usage is
+              \* back under the limit - unless the policy has nothing left that it may evict
+              /\ (e.policy # "noeviction" /\ e.cmd[1].s \in StoringOps /\ e.r.t # "err") =>
+                    (e.mem < e.max \/ {x \in DOMAIN after : Volatile(e.policy) => after[x].d # NoD} = {})
+              \* "who": the volatile-key index, and under volatile-* policies the cache the victims come from, hold only
+              \* keys that are there and carry a deadline
+              /\ \A i \in DOMAIN e.vol : LET x == <<e.vol[i].db, e.vol[i].key>> IN x \in DOMAIN after /\ after[x].d # NoD
+              /\ Volatile(e.policy) =>
+                    /\ \A i \in DOMAIN e.lru : LET x == <<e.lru[i].db, e.lru[i].key>> IN x \in DOMAIN after /\ after[x].d # NoD
+                    /\ \A i \in DOMAIN e.lfu : LET x == <<e.lfu[i].db, e.lfu[i].key>> IN x \in DOMAIN after /\ after[x].d # NoD
               \* the figure is the accounted size of what is left
               /\ e.mem = MemOf(after)
               /\ st' = after /\ pmem' = e.mem
